@@ -70,6 +70,7 @@ def public_names(app):
 
 NAMES = sorted(k.split('}')[1] for k in public_names(APPS['json']))
 LENS = sorted(set(len(n) for n in NAMES) | set(len(n) + 1 for n in NAMES) | {max(len(n) for n in NAMES) + 2, 1, 2})
+LENS_T = list(range(1, max(LENS) + 3))
 ALPHA = 'getGxfchMs_2'
 
 
@@ -114,7 +115,7 @@ BOUNDS = {'name': 'every string of length 1, 2, len(registered), len(registered)
                          'operation name fetch, custom in-message name getMsg), both service orders'}
 
 
-@harness('C11', params=[(a, L) for a in ('json', 'json-BA') for L in LENS], label=lambda p: '%s len=%d' % p,
+@harness('C11', tier_params={'quick': [(a, L) for a in ('json', 'json-BA') for L in LENS], 'thorough': [(a, L) for a in ('json', 'json-BA') for L in LENS_T]}, label=lambda p: '%s len=%d' % p,
          functions=FUNCS, bounds=BOUNDS)
 def json_key(sx, p):
     """JSON: the single key names the method; exactly its registered function is selected, else not-found"""
@@ -131,7 +132,8 @@ def json_key(sx, p):
     return _judge(sx, app, name, run)
 
 
-@harness('C11', params=[(a, L, nsk) for a in ('xml', 'soap11') for L in LENS for nsk in ('tns', 'other', 'none')],
+@harness('C11', tier_params={'quick': [(a, L, nsk) for a in ('xml', 'soap11') for L in LENS for nsk in ('tns', 'other', 'none')],
+                             'thorough': [(a, L, nsk) for a in ('xml', 'soap11') for L in LENS_T for nsk in ('tns', 'other', 'none')]},
          label=lambda p: '%s len=%d ns=%s' % p, functions=FUNCS, bounds=BOUNDS)
 def xml_root_tag(sx, p):
     """XML/SOAP: the qualified root tag names the method; a foreign or missing namespace never matches"""
@@ -161,7 +163,7 @@ def xml_root_tag(sx, p):
     return _judge(sx, app, name, run, ns_ok)
 
 
-@harness('C11', params=LENS, label=lambda L: 'len=%d' % L, functions=FUNCS, bounds=BOUNDS)
+@harness('C11', tier_params={'quick': LENS, 'thorough': LENS_T}, label=lambda L: 'len=%d' % L, functions=FUNCS, bounds=BOUNDS)
 def msgpack_rpc_field(sx, L):
     """msgpack-rpc: the third field of [type, msgid, method, params] names the method"""
     app = APPS['msgpackrpc']
@@ -177,7 +179,7 @@ def msgpack_rpc_field(sx, L):
     return _judge(sx, app, name, run)
 
 
-@harness('C11', params=LENS, label=lambda L: 'len=%d' % L, functions=FUNCS, bounds=BOUNDS)
+@harness('C11', tier_params={'quick': LENS, 'thorough': LENS_T}, label=lambda L: 'len=%d' % L, functions=FUNCS, bounds=BOUNDS)
 def http_path(sx, L):
     """HttpRpc over WSGI: the last path segment names the method"""
     app = APPS['http']
@@ -223,7 +225,7 @@ PAPP = Application([P], TNS, in_protocol=HttpRpc(), out_protocol=JsonDocument())
 PW = WsgiApplication(PAPP)
 
 
-@harness('C11', params=[1, 4, 5, 6, 7, 8, 10, 11], label=lambda L: 'pathlen=%d' % L,
+@harness('C11', tier_params={'quick': [1, 4, 5, 6, 7, 8, 10, 11], 'thorough': list(range(1, 14))}, label=lambda L: 'pathlen=%d' % L,
          functions=['spyne.server.http.HttpBase.match_pattern', 'spyne.protocol.http.HttpPattern._compile_url_pattern'],
          bounds={'path': 'every path of the given lengths over the characters of the registered addresses '
                          '(/user, /item/<item_id>, /ping, /user/ping) plus two foreign characters; verbs GET, POST, PUT'})
